@@ -561,8 +561,8 @@ fn worker(gs: &[G], prop: &str, tier: Tier, seed: u64, w: usize, nw: usize, skip
             Some(Fail::Panic(_)) => st.fails_panic += 1,
             None => {}
         }
-        if samples.len() < 2 && j.nontrivial && w == 0 {
-            samples.push(json!({"grammar": g.meta.name, "grammar_origin": g.meta.origin, "entry": g.meta.entries[case.entry].0, "input_kind": kind,
+        if u < 64 && j.nontrivial {
+            samples.push(json!({"unit": u, "grammar": g.meta.name, "grammar_origin": g.meta.origin, "entry": g.meta.entries[case.entry].0, "input_kind": kind,
                 "tokens": case.tokens.iter().map(|t| g.meta.token_names[*t as usize].clone()).collect::<Vec<_>>(),
                 "pred_bias_256": case.pred_bias, "assert_bias_256": case.assert_bias, "probe_bias_256": case.probe_bias,
                 "dyn_skip": case.dyn_skip.iter().map(|t| g.meta.token_names[*t as usize].clone()).collect::<Vec<_>>(), "parser_runs": j.runs}));
@@ -697,6 +697,8 @@ fn supervise(gs: &[G], prop: &str, tier: Tier, seed: u64) -> i32 {
         }
         found.extend(v["found"].as_array().cloned().unwrap_or_default());
         samples.extend(v["samples"].as_array().cloned().unwrap_or_default());
+        samples.sort_by_key(|x| x["unit"].as_u64().unwrap_or(u64::MAX));
+        samples.truncate(2);
         let hb = std::fs::read(dir.join(format!("hashes{w}"))).unwrap_or_default();
         for c in hb.chunks_exact(8) {
             hashes.insert(u64::from_le_bytes(c.try_into().unwrap()));
@@ -754,6 +756,7 @@ fn supervise(gs: &[G], prop: &str, tier: Tier, seed: u64) -> i32 {
         coverage: json!({
             "evaluations": runs,
             "distinct_nontrivial": hashes.len(),
+            "run_digest": format!("{:016x}", hashes.iter().fold(0u64, |a, h| a ^ vcore::mix(*h))),
             "rule": format!("evaluation = one execution of a generated parser (real skeleton + emitted rule code, compiled from /repo at check time) against the simulated other party (lexer vector incl. injected Error/skipped tokens, stateless adversarial predicate/assertion/predicate_skip answers keyed by (callback, logical position), monitor in every callback). {title}. Units: {} grammars x {} seeded cases; non-trivial = the run contained an adversary decision, a diagnostic or injected noise; distinct = different hash of (grammar, callback-event trace with answers and logical positions, final node vector).", eligible.len(), per),
             "samples": samples,
             "units": tot["units"],
